@@ -126,6 +126,7 @@ A2 == {<<"a">>, <<"b">>, <<"a", "b">>, <<"b", "a">>}
 BgpLayouts(shape(_), al, conds, nf) == {l \in shape(BgpEntries(al, conds, nf)) : OneNodePerAddr(l)}
 EpsBgpOne(nf)    == BgpLayouts(UpTo1, A1, Cond5, nf)
 EpsBgpTwo9(nf)   == BgpLayouts(UpTo2, A1, Cond9, nf)
+EpsBgpTwo5(nf)   == BgpLayouts(UpTo2, A1, Cond5, nf)
 EpsBgpTwoM(nf)   == BgpLayouts(UpTo2, A2, Cond2, nf)
 EpsBgpThree(nf)  == BgpLayouts(Exactly3, A1, Cond5, nf)
 EpsBgpThreeM(nf) == BgpLayouts(Exactly3, A2, Cond2, nf)
@@ -228,10 +229,12 @@ InvLemma ==
      /\ LemmaAdd(NodeNames, x)
      /\ LemmaNoSwap(NodeNames, x)
 
-(* C04 at design level, pair scenarios: exactly one announcer, eligible     *)
+(* C04 / C12 at design level on the pair scenarios (a quarter of the orders; *)
+(* InvLemma covers every order)                                             *)
+PairRanks == {r \in Ranks(NodeNames) : r["n1"] < r["n2"] /\ r["n3"] < r["n4"]}
 InvPairModel ==
   (Mode = "pair" /\ stage = 2) =>
-     \A r \in Ranks(NodeNames) :
+     \A r \in PairRanks :
         LET wb == {n \in NodeNames : CodeL2Announces(x.base, n, r)}
             wp == {n \in NodeNames : CodeL2Announces(x.pert, n, r)}
             eb == L2Eligible(x.base)
